@@ -1033,6 +1033,13 @@ class DataSourceMetadataSource(MetadataSource):
         self.data_source.output(
             metadata_key, io.BytesIO(bytes() if stored_with_data else value)
         )
+        # Any previously written value is overwritten, also one written the other way (in the
+        # metadata store / with the data): read_metadata would keep answering with that one
+        other_metadata_key = DataSourceMetadataSource._get_metadata_key(
+            fn_with_arg_hash, key, not stored_with_data
+        )
+        if self.data_source.exists_nonversioned(other_metadata_key):
+            self.data_source.delete_all_versions(other_metadata_key, False)
 
     def forget_call(self, fn_with_arg_hash: FunctionReferenceWithArgHash):
         call_path_prefix = DataSourceMetadataSource._get_path(
